@@ -16,7 +16,7 @@ import json
 from pyvc.report import Check
 from pyvc import ground
 from contracts import astwriter
-from bounded import astnative, trivianative
+from bounded import astnative, trivianative, clinative
 
 
 def run(tier, seed):
@@ -85,6 +85,7 @@ def run(tier, seed):
             if not chk.violations:
                 chk.violation('BOUNDED:c10/formatter output is not canonical (trivia-run enumeration)', {'witness': tri['bad10'][:4]}, True)
     chk.native_witness = (nat.get('bad') or []) + (tri.get('bad10') or [])
+    clinative.fold(chk, 'luafmt')
     chk.trust('control-path enumeration with dataflow events over the real handlers (pyvc/effects.py), correlated branches on the same flag respected; '
               'reference grammar, reference tokenizer and an independent depth counter (bounded part)')
     chk.assume('the regular-expression substitution pipeline is outside the reach of the solvers (replace_all chains): bounded only')
